@@ -329,9 +329,9 @@ void shrink(const Plan& p, std::vector<Plan>& out) {
   for (const char* k : zero_keys) if (p.get(k)) { Plan q = p; q.set(k, 0); out.push_back(q); }
 }
 
-const sim::Scenario kDirect = {"C19", "pool", "asan", 60000, 1200000, generate_direct, execute_direct, op_name, shrink, nullptr};
-const sim::Scenario kEmbed = {"C19", "embed", "asan", 20000, 300000, generate_embed, execute_embed, op_name, shrink, nullptr};
-const sim::Scenario kCompiler = {"C19", "compiler", "asan", 6000, 100000, generate_embed, execute_compiler, op_name, shrink, nullptr};
+const sim::Scenario kDirect = {"C19", "pool", "asan", 300000, 6000000, generate_direct, execute_direct, op_name, shrink, nullptr};
+const sim::Scenario kEmbed = {"C19", "embed", "asan", 100000, 1500000, generate_embed, execute_embed, op_name, shrink, nullptr};
+const sim::Scenario kCompiler = {"C19", "compiler", "asan", 30000, 500000, generate_embed, execute_compiler, op_name, shrink, nullptr};
 sim::Registrar r1(kDirect), r2(kEmbed), r3(kCompiler);
 
 const char* const kAssumptions[] = {
